@@ -10,6 +10,8 @@ OUT=/verif/seeded/$ID
 mkdir -p $OUT
 cp $D/patch.diff $D/demo.py $OUT/ 2>/dev/null
 git -C $WT checkout -q -- . 
+# the scratch worktree follows /repo (fix: commits made since the worktree was created)
+git -C $WT checkout -q --detach $(git -C /repo rev-parse HEAD) 2>/dev/null
 ( cd $WT && PYTHONPATH=$WT timeout 300 /venv/bin/python $D/demo.py >/dev/null 2>&1 ); D0=$?
 git -C $WT apply $D/patch.diff || { echo "patch does not apply in worktree"; exit 2; }
 ( cd $WT && PYTHONPATH=$WT timeout 300 /venv/bin/python $D/demo.py >/dev/null 2>&1 ); D1=$?
